@@ -635,34 +635,39 @@ Definition any_step (r : rs) (key t : nat) : option rs :=
   match threads (ms r) t with Some th => first_step r key t (choices r key th) | None => None end.
 
 (* may this thread be moved when it is not its own observation that asks for it? *)
-Definition catchup_ok (r : rs) (key : nat) (th : thread) : bool :=
+(* lz: do not let a closer close the receiver.  When that happens between close:exp-waited and
+   close:receiver-closed is not observed, and it decides what goroutines that have not yet made
+   their ctx check do: a catch-up first tries without it, and only if the step it is needed for
+   is still not enabled with it. *)
+Definition catchup_ok (lz : bool) (r : rs) (key : nat) (th : thread) : bool :=
   match t_pc th with
   | COnce => match once (ms r) with ONot => false | _ => true end     (* who wins the Once is observed *)
+  | CRecvClose => negb lz
   | ACtx => if nmem key (aborts r) then ctx_cancelled (ms r) else true
   | Fin _ => false
   | _ => true
   end.
 
 (* advance every idle actor other than `me` by the steps it can take (choice 0, then 1) *)
-Fixpoint catchup_threads (r : rs) (me : actor) (ts : list nat) : rs * bool :=
+Fixpoint catchup_threads (lz : bool) (r : rs) (me : actor) (ts : list nat) : rs * bool :=
   match ts with
   | [] => (r, false)
   | t :: rest =>
     let '(r1, moved1) :=
       match rlookup t (amap r), threads (ms r) t with
       | Some key, Some th =>
-        if actor_eqb me (AThread key) || negb (idle r (AThread key)) || negb (catchup_ok r key th) then (r, false)
+        if actor_eqb me (AThread key) || negb (idle r (AThread key)) || negb (catchup_ok lz r key th) then (r, false)
         else match any_step r key t with
              | Some r' => (r', true)
              | None => (r, false)
              end
       | _, _ => (r, false)
       end in
-    let '(r2, moved2) := catchup_threads r1 me rest in
+    let '(r2, moved2) := catchup_threads lz r1 me rest in
     (r2, moved1 || moved2)
   end.
 
-Definition catchup_round (r : rs) (me : actor) : rs * bool :=
+Definition catchup_round (lz : bool) (r : rs) (me : actor) : rs * bool :=
   let '(r1, m1) :=
     if actor_eqb me AWatch || negb (idle r AWatch) then (r, false)
     else match watch_step r 0 with
@@ -673,14 +678,20 @@ Definition catchup_round (r : rs) (me : actor) : rs * bool :=
     if actor_eqb me ADist || negb (idle r1 ADist) then (r1, false)
     else match dist_step r1 with Some r' => (r', true) | None => (r1, false) end in
   let '(r3, m3) := match cleaner_exit r2 with Some r' => (r', true) | None => (r2, false) end in
-  let '(r4, m4) := catchup_threads r3 me (seq 0 (next_tid (ms r3))) in
+  let '(r4, m4) := catchup_threads lz r3 me (seq 0 (next_tid (ms r3))) in
   (r4, m1 || m2 || m3 || m4).
 
-Fixpoint catchup (fuel : nat) (r : rs) (me : actor) : rs :=
+Fixpoint catchup_l (lz : bool) (fuel : nat) (r : rs) (me : actor) : rs :=
   match fuel with
   | O => r
-  | S f => let '(r', moved) := catchup_round r me in if moved then catchup f r' me else r'
+  | S f => let '(r', moved) := catchup_round lz r me in if moved then catchup_l lz f r' me else r'
   end.
+Definition catchup := catchup_l false.
+
+(* catch up until `enabled` holds: lazily first, eagerly if that is not enough *)
+Definition catchup_for (r : rs) (me : actor) (enabled : rs -> bool) : rs :=
+  let r1 := catchup_l true 40 r me in
+  if enabled r1 then r1 else catchup 40 r me.
 
 (* consume passage p of actor a from what it owes *)
 Definition consume (r : rs) (a : actor) (p : yp) : option rs :=
@@ -704,7 +715,7 @@ Fixpoint explain_thread (fuel : nat) (r : rs) (key t : nat) (p : yp) : option rs
       | Some r' => explain_thread f r' key t p
       | None =>
         (* not enabled: let the others do what they must have done already *)
-        let r' := catchup 40 r (AThread key) in
+        let r' := catchup_for r (AThread key) (fun x => match any_step x key t with Some _ => true | None => false end) in
         match any_step r' key t with
         | None => None
         | Some _ => explain_thread f r' key t p
@@ -720,7 +731,7 @@ Fixpoint explain_watch (fuel : nat) (r : rs) (p : yp) : option rs :=
     else match watch_step r 0 with
          | Some r' => explain_watch f r' p
          | None =>
-           let r' := catchup 40 r AWatch in
+           let r' := catchup_for r AWatch (fun x => match watch_step x 0 with Some _ => true | None => false end) in
            match watch_step r' 0 with Some r'' => explain_watch f r'' p | None => None end
          end
   end.
@@ -781,7 +792,7 @@ Fixpoint explain_dist (fuel : nat) (r : rs) (p : yp) : option rs :=
            match dist_step r with
            | Some r' => explain_dist f r' p
            | None =>
-             let r' := catchup 40 r ADist in
+             let r' := catchup_for r ADist (fun x => match dist_step x with Some _ => true | None => false end) in
              match dist_step r' with Some r'' => explain_dist f r'' p | None => None end
            end
          end
@@ -801,7 +812,7 @@ Fixpoint finish_thread (fuel : nat) (r : rs) (key t : nat) : option (rs * result
         else match any_step r key t with
              | Some r' => finish_thread f r' key t
              | None =>
-               let r' := catchup 40 r (AThread key) in
+               let r' := catchup_for r (AThread key) (fun x => match any_step x key t with Some _ => true | None => false end) in
                match any_step r' key t with
                | None => None
                | Some _ => finish_thread f r' key t
@@ -841,7 +852,10 @@ Definition replay_one (r : rs) (o : obs) : option rs :=
     end
   | OGo key aborted fails =>
     (* the oldest goroutine watch has started and nobody has seen yet *)
-    let r0 := match fresh_async r with [] => catchup 40 r (AThread key) | _ => r end in
+    let r0 := match fresh_async r with
+              | [] => catchup_for r (AThread key) (fun x => match fresh_async x with [] => false | _ => true end)
+              | _ => r
+              end in
     match fresh_async r0 with
     | t :: rest =>
       let pre := match threads (ms r0) t with Some th => pre_thread (ms r0) th | None => [] end in
@@ -891,7 +905,7 @@ Definition replay_one (r : rs) (o : obs) : option rs :=
       | Some l =>
         let r0 := set_maps r (amap r) (fresh_async r) (aborts r) (lmap r) (nremove key (reg_pending r)) (can_pending r) in
         if closed then core_do r0 (LAddClosed l)
-        else match dist_to_select 60 (catchup 40 r0 (AReg key)) with
+        else match dist_to_select 60 (catchup_for r0 (AReg key) (fun x => match dist_to_select 60 x with Some _ => true | None => false end)) with
              | Some r1 => match core_do r1 (LAdd l) with
                           | Some r2 => Some (with_owed r2 ADist (lst_of (alookup ADist (owed r2)) ++ [YDistAdded]))
                           | None => None
@@ -911,7 +925,7 @@ Definition replay_one (r : rs) (o : obs) : option rs :=
       | Some l =>
         let r0 := set_maps r (amap r) (fresh_async r) (aborts r) (lmap r) (reg_pending r) (nremove key (can_pending r)) in
         if closing (co (ms r0)) then Some r0       (* the <-s.closing case of the select *)
-        else match dist_to_select 60 (catchup 40 r0 (AReg key)) with
+        else match dist_to_select 60 (catchup_for r0 (AReg key) (fun x => match dist_to_select 60 x with Some _ => true | None => false end)) with
              | Some r1 => match core_do r1 (LRm l) with
                           | Some r2 => Some (with_owed r2 ADist (lst_of (alookup ADist (owed r2)) ++ [YDistRemoved]))
                           | None => None
